@@ -237,6 +237,8 @@ def NormalizeZScore(inputs, p, defaults=None):
     if "TrueThresholdZScore" not in q or "FalseThresholdZScore" not in q:
         raise Undefined("documented and implemented default z-score thresholds disagree")
     tt, ft = float(q["TrueThresholdZScore"]), float(q["FalseThresholdZScore"])
+    if tt == ft:
+        raise Undefined("equal thresholds")
     s, e = q.get("StartVal", 0), q.get("EndVal", 1)
     if float(s) >= float(e):
         raise Undefined("StartVal >= EndVal")
@@ -338,6 +340,17 @@ def _mean_to_mid(col, normal, ignore_zeros):
         raise Undefined("no spread around the mean")
     raw = [lo, sum(below, F(0)) / len(below), mean, sum(above, F(0)) / len(above), hi]
     normal = list(normal)
+    lattice = all(x.denominator in (1, 2, 4, 8) and abs(x) <= 2 ** 20 for x in v)
+    if not lattice:
+        # off the dyadic lattice the implementation's float statistics differ from the exact ones by rounding: the
+        # comparisons 'cell <= mean' and 'statistic == extreme' are then ill-conditioned whenever things (nearly) coincide
+        tol = lambda a: F(1, 10 ** 9) * max(1, abs(a))
+        for stat in raw[1:4]:
+            if any(abs(x - stat) <= tol(stat) for x in v):
+                raise Undefined("cell within rounding distance of a mean-to-mid statistic (non-lattice data)")
+        for i in range(1, 5):
+            if abs(raw[i] - raw[i - 1]) <= tol(raw[i]):
+                raise Undefined("mean-to-mid statistics coincide within rounding (non-lattice data)")
     if raw[-1] == raw[-2]:
         del raw[-2]
         del normal[-2]
